@@ -17,12 +17,14 @@ import (
 
 func main() {
 	if len(os.Args) < 2 {
-		fmt.Fprintln(os.Stderr, "usage: gosymx run|check|list ...")
+		fmt.Fprintln(os.Stderr, "usage: gosymx run|check|replay ...")
 		os.Exit(2)
 	}
 	switch os.Args[1] {
 	case "run":
 		os.Exit(cmdRun(os.Args[2:]))
+	case "replay":
+		os.Exit(cmdReplay(os.Args[2:]))
 	case "check":
 		os.Exit(cmdCheck(os.Args[2:]))
 	default:
@@ -87,7 +89,7 @@ func cmdRun(args []string) int {
 		}
 	}
 	sort.Slice(hs, func(i, j int) bool { return hs[i].Name() < hs[j].Name() })
-	conf := sx.Config{Unwind: *unwind, MaxSteps: *steps, MaxPaths: *paths, MaxTime: *maxTime, SolverKind: *solverKind, SolverMS: *solverMS, BranchMS: 1500}
+	conf := sx.Config{NoIfConv: os.Getenv("VERIF_NOIFCONV") != "", Unwind: *unwind, MaxSteps: *steps, MaxPaths: *paths, MaxTime: *maxTime, SolverKind: *solverKind, SolverMS: *solverMS, BranchMS: 1500}
 	t0 := time.Now()
 	pool, err := w.NewPool(conf, sp, *workers)
 	if err != nil {
